@@ -131,6 +131,39 @@ def verify_function(qualname, options=None, timeout_ms=10000, repo_root=None):
         res["trusted"] = ["frame-scan: stores through aliases of the object or inside callees are not seen (syntactic)"]
         res["seconds"] = round(time.time() - t0, 3)
         return res
+    if c.options.get("class_state_scan"):
+        # syntactic data-structure obligation: the class of this method creates its mutable state per instance - no dict / list / set
+        # (literal, comprehension or constructor call) is bound at class level, where every instance would share it
+        import ast as _ast
+        short = qualname.replace("uxarray.", "", 1).split("@")[0]
+        clsname = qualname.split("@")[0].split(".")[-2]
+        tree = _ast.parse(open(info.file).read())
+        bad, seen = [], 0
+        for node in _ast.walk(tree):
+            if isinstance(node, _ast.ClassDef) and node.name == clsname:
+                for st in node.body:
+                    if isinstance(st, (_ast.Assign, _ast.AnnAssign)) and st.value is not None:
+                        seen += 1
+                        v = st.value
+                        mutable = isinstance(v, (_ast.Dict, _ast.List, _ast.Set, _ast.DictComp, _ast.ListComp, _ast.SetComp)) or (
+                            isinstance(v, _ast.Call) and isinstance(v.func, _ast.Name) and v.func.id in ("dict", "list", "set", "defaultdict"))
+                        names = [t.id for t in (st.targets if isinstance(st, _ast.Assign) else [st.target]) if isinstance(t, _ast.Name)]
+                        ok = not mutable
+                        res["obligations"].append({"name": f"{short}/class_state:{'/'.join(names) or 'target'}", "kind": "class_state",
+                                                   "status": "discharged" if ok else "failed",
+                                                   "clause": f"class-level binding of {names} is not a mutable container shared by all instances",
+                                                   "loc": f"{res['file']}:{st.lineno}", "backend": "class-scan", "seconds": 0.0, "model": None,
+                                                   "reason": "decided from the AST", "path": None, "concrete": None})
+                        if not ok:
+                            bad.append(names)
+        res["obligations"].append({"name": f"{short}/class_state", "kind": "class_state", "status": "failed" if bad else "discharged",
+                                   "clause": f"class {clsname} binds no mutable container at class level ({seen} class-level bindings inspected)",
+                                   "loc": f"{res['file']}:{res['line']}", "backend": "class-scan", "seconds": 0.0, "model": None,
+                                   "reason": "decided from the AST", "path": None, "concrete": None})
+        res["paths"] = 1
+        res["trusted"] = ["class-scan: containers created by other means (module-level objects referenced from the class) are not seen"]
+        res["seconds"] = round(time.time() - t0, 3)
+        return res
     ctx = Ctx(repo, reg, options=opts)
     if opts.get("abstract") and opts.get("py_int_injective"):
         # python ints as abstract objects: distinct integers are distinct objects (py:int is injective) - a quantified axiom, only
